@@ -11,94 +11,9 @@ from ..mast import Unsupported, callee, strip_casts, pp
 from ..facts import NS
 from ..omach import OMachine, Obj, Vec, It, Fault
 from . import common
-from .c09_match import MWorld, Tok, Reject, tree
+from .c09_match import MWorld, PWorld, NList, Tok, Reject, tree
 from .c12_order import TNode
 from .c02_axes import spec_axis
-
-
-class NList:
-    identity = True
-
-    def __init__(self):
-        self.items = []
-        self.flag = 'unknown'
-
-
-class PWorld(MWorld):
-    def hook(self, m, c):
-        k = c['k']
-        n = c.get('n') or (callee(c).split('::')[-1] if c.get('fn') != '<memptr>' else '<memptr>')
-        cls = c.get('cls') or ''
-        if k == 'Ctor' and ('BorrowReturnMutableNodeRefList' in cls or 'GetCachedNodeList' in cls):
-            return NList()
-        if k == 'Ctor' and ('PushAndPop' in cls or 'SetAndRestore' in cls):
-            return 'GUARD'      # context node list / current node bookkeeping: read by position() and last() only, which predicate-free paths do not call
-        if k == 'OpCall' and c.get('op') in ('*', '->') and len(c['args']) == 1:
-            v = m.ev(c['args'][0])
-            if isinstance(v, NList):
-                return v
-        if k == 'MCall':
-            tgt = m.target_obj(c)
-            if isinstance(tgt, NList):
-                a = c.get('args', [])
-                if n == 'get':
-                    return tgt
-                if n == 'addNode':
-                    tgt.items.append(m.ev(a[0])); return 0
-                if n == 'addNodeInDocOrder':
-                    nd = m.ev(a[0])
-                    if nd not in tgt.items:
-                        tgt.items.append(nd); tgt.items.sort(key=lambda x: x.order)
-                    return 0
-                if n == 'addNodesInDocOrder':
-                    o = m.ev(a[0])
-                    for nd in o.items:
-                        if nd not in tgt.items:
-                            tgt.items.append(nd)
-                    tgt.items.sort(key=lambda x: x.order)
-                    return 0
-                if n == 'setDocumentOrder':
-                    tgt.flag = 'document'; return 0
-                if n == 'setReverseDocumentOrder':
-                    tgt.flag = 'reverse'; return 0
-                if n == 'getDocumentOrder':
-                    return int(tgt.flag == 'document')
-                if n == 'getReverseDocumentOrder':
-                    return int(tgt.flag == 'reverse')
-                if n == 'empty':
-                    return int(not tgt.items)
-                if n == 'getLength':
-                    return len(tgt.items)
-                if n == 'item':
-                    i = int(m.ev(a[0]))
-                    if not (0 <= i < len(tgt.items)):
-                        raise Fault('item(%d) of a list of %d' % (i, len(tgt.items)))
-                    return tgt.items[i]
-                if n == 'clear':
-                    tgt.items = []; tgt.flag = 'unknown'; return 0
-                if n == 'swap':
-                    o = m.ev(a[0])
-                    tgt.items, o.items = o.items, tgt.items
-                    tgt.flag, o.flag = o.flag, tgt.flag
-                    return 0
-                if n == 'reverse':
-                    tgt.items.reverse()
-                    tgt.flag = {'document': 'reverse', 'reverse': 'document'}.get(tgt.flag, tgt.flag)
-                    return 0
-                raise Unsupported('node list method ' + n)
-            if n == 'getOwnerDocument' and isinstance(tgt, TNode):
-                return 0 if tgt.kind == 'doc' else self.doc
-            if n == 'getDocumentElement' and isinstance(tgt, TNode):
-                return next((x for x in tgt.children if x.kind == 'elem'), 0)
-        if k == 'Call' and n == 'toDouble':
-            v = m.ev(c['args'][0])
-            try:
-                return float(v)
-            except (TypeError, ValueError):
-                return float('nan')
-        if k == 'Ctor' and 'PushAndPop' in cls:
-            return 'GUARD'
-        return super().hook(m, c)
 
 
 ABBREV = [['a'], ['b'], ['*'], ['@', 'x'], ['@', '*'], ['text', '(', ')'], ['node', '(', ')'], ['.'], ['..']]
